@@ -1,7 +1,7 @@
 /-
 C12 model, part 3 (core Lean only): the record formats of `Data` (protocols 1–5) and
 `DataCollection` (protocols 1–4) and their saver / loader chains, as in `glue/core/state.py`
-(with the F17/F18 repairs applied):
+(with the F-C12b/F-C12c repairs applied):
 
     _save_data      (1)  components, subsets, label, coords
     _save_data_2    (2)  = 1 + style
@@ -163,7 +163,7 @@ def saveData2 (d : DataO) : DataRec :=
   { saveData1 d with protocol := 2, style := some d.style }
 
 /-- protocol 3 stores one component ID per side; a join on several components cannot be written
-(`GlueSerializeError`, F18 repair) -/
+(`GlueSerializeError`, F-C12c repair) -/
 def saveJoin3 (j : Join) : Option JoinRec :=
   match j.own, j.theirs with
   | [a], [b] => some (.single j.other a b)
@@ -206,7 +206,7 @@ def loadData2 (r : DataRec) : Option DataO := do
   let st ← r.style                       -- rec['style']
   some { d with style := st }
 
-/-- F18 repair: a single ID is wrapped into a 1-tuple -/
+/-- F-C12c repair: a single ID is wrapped into a 1-tuple -/
 def loadJoin : JoinRec → Join
   | .single o a b => ⟨o, [a], [b]⟩
   | .tuple o a b => ⟨o, a, b⟩
